@@ -61,6 +61,13 @@ CLAIMED['C06'] = dict(
     note='Trusted: rustc MIR, the driver, spec table, flate2. Structural clauses only.',
     technique='static analysis: read-schedule path enumeration vs spec + MIR provenance + switch tables + guard dominance')
 
+CLAIMED['C07'] = dict(
+    category='other',
+    text='Non-interference decided statically over rustc MIR: every read the spec marks ignorable is consumed (layout equality for all 14 decoders) and its value has no use (def-use); every chunk decoder receives only the byte slice of its own chunk and builds a private reader, the chunk buffer is exactly chunk_size - 6 bytes; cel-extra/mask/path arms write no parser state and the colour-profile arm writes only a field nobody reads; the chunk count is new_chunks unless 0, else old_chunks; the pixel-ratio refusal accepts zero components (truth table by abstract evaluation); no reader call after the frames loop and the header file size is unused; palette precedence; raw/zlib cel decoders are siblings differing only in take_bytes vs unzip; cels stored by slot with duplicates rejected. Partial: shows absence of flows that could make observations differ; zlib level independence is flate2\'s contract.',
+    design_ref='DESIGN.md section 4, C07',
+    note='Trusted: rustc MIR, the driver, spec table (which fields are ignorable), flate2.',
+    technique='static analysis: def-use (taint) of ignorable reads, effect analysis per match arm, sibling comparison, abstract evaluation of guards')
+
 ALL = ['C%02d' % i for i in range(1, 20)]
 
 
